@@ -98,15 +98,18 @@ structure Doc where
   b0 : Option Nat
   b1 : Option Nat
   rib : Option (List Nat × Nat × Nat)
+  filters : Nat := 0      -- length of `filter_names`
+  vr : Bool := false      -- the hand-written virtual RIB `vr` (unit 3) and its target `t8`
   nulls : List (Nat × List Nat)
   broken : Nat
 
 def parseB (s : String) : Option (Option Nat) := if s == "-" then some none else s.toNat?.map some
 
-def parseRib (s : String) : Option (Option (List Nat × Nat × Nat)) :=
-  if s == "-" then some none else
+def parseRib (s : String) : Option (Option (List Nat × Nat × Nat) × Nat × Bool) :=
+  if s == "-" then some (none, 0, false) else
   match s.splitOn "." with
-  | [srcs, v4, path] => do some (some (← nats srcs, ← v4.toNat?, ← path.toNat?))
+  | [srcs, v4, path] => do some (some (← nats srcs, ← v4.toNat?, ← path.toNat?), 0, false)
+  | [srcs, v4, path, f, vr] => do some (some (← nats srcs, ← v4.toNat?, ← path.toNat?), ← f.toNat?, vr == "1")
   | _ => none
 
 def parseNulls (s : String) : Option (List (Nat × List Nat)) :=
@@ -118,18 +121,28 @@ def parseNulls (s : String) : Option (List (Nat × List Nat)) :=
 def parseDoc (s : String) : Option Doc :=
   match s.splitOn "," with
   | [b0, b1, rib, nulls, broken] => do
-    some { b0 := ← parseB b0, b1 := ← parseB b1, rib := ← parseRib rib, nulls := ← parseNulls nulls, broken := ← broken.toNat? }
+    let r ← parseRib rib
+    some { b0 := ← parseB b0, b1 := ← parseB b1, rib := r.1, filters := r.2.1, vr := r.2.2, nulls := ← parseNulls nulls, broken := ← broken.toNat? }
   | _ => none
 
 def bmpComp (n : Nat) : RawComp := ⟨n, some 0, .absent, none, 0, none⟩
 
 def Doc.toLoad (d : Doc) (residue moved : List Nat) : LLoad :=
   let units := (match d.b0 with | some _ => [bmpComp 0] | none => []) ++ (match d.b1 with | some _ => [bmpComp 1] | none => [])
-    ++ (match d.rib with | some (srcs, _, _) => [⟨2, some 4, .many (srcs.map V.s), none, 0, none⟩] | none => [])
+    ++ (match d.rib with | some (srcs, _, _) => [⟨2, some 4, .many (srcs.map V.s), none, d.filters, none⟩] | none => [])
+    ++ (if d.rib.isSome && d.vr then [⟨3, some 4, .many [.s 2], none, 0, some 2⟩] else [])
   let targets := d.nulls.map (fun t => (⟨t.1, some 0, .many (t.2.map V.s), none, 0, none⟩ : RawComp))
+    ++ (if d.rib.isSome && d.vr then [⟨8, some 0, .many [.s 3], none, 0, none⟩] else [])
     ++ (if d.broken == 2 then [⟨9, none, .many [.s 0], none, 0, none⟩] else [])
   let settings := (match d.b0 with | some p => [(0, Settings.bmp ⟨p⟩)] | none => []) ++ (match d.b1 with | some p => [(1, Settings.bmp ⟨p⟩)] | none => [])
     ++ (match d.rib with | some (srcs, v4, path) => [(2, Settings.rib ⟨srcs, v4, 19, path, none⟩)] | none => [])
+    -- virtual RIBs: rib units without a store; generated ones are clones of the rib's table (same path), the
+    -- hand-written one answers below its own path (9)
+    ++ (match d.rib with
+        | some (_, v4, path) =>
+          (if 2 ≤ d.filters then (List.range (d.filters - 1)).map (fun k => (vribName 2 k, Settings.rib ⟨[if k = 0 then 2 else vribName 2 (k - 1)], v4, 19, path, none⟩)) else [])
+          ++ (if d.vr then [(3, Settings.rib ⟨[remapOf [⟨2, some 4, .absent, none, d.filters, none⟩] 2], 8, 19, 9, none⟩)] else [])
+        | none => [])
   { load := { notToml := d.broken == 1, doc := ⟨units, targets⟩, roto := false, residue := residue, moved := moved }, settings := settings }
 
 def parseRoute (s : String) : Option Ev :=
@@ -175,6 +188,15 @@ def sortBy (lt : α → α → Bool) (l : List α) : List α := l.foldl (fun acc
 
 def showNats (l : List Nat) : String := ",".intercalate ((sortBy (· < ·) l).map toString)
 
+def showVirt (s : LiveW) : String :=
+  let ls := sortBy (fun (a b : Name × VLink) => a.1 < b.1) s.wire.links
+  ",".intercalate (ls.map (fun e =>
+    let label := if e.1 == 3 then "v" else
+      match lookupU e.1 s.live.units with
+      | some (.rib u) => s!"{u.cfg.path}.{e.1 - 120}"
+      | _ => s!"?.{e.1 - 120}"
+    s!"{label}:{if s.wire.answers e.1 then "=" else "T"}"))
+
 def showObs (s : Live) (res : Option Result) : String :=
   let r := match res with | some (.ok _) => "ok" | some .err => "err" | some .panic => "panic" | none => "-"
   let rib := match lookupU 2 s.units with
@@ -187,10 +209,10 @@ def showObs (s : Live) (res : Option Result) : String :=
   let opens := s.units.flatMap (fun e => match e.2 with | .bmp u => u.sessions | _ => [])
   s!"{r} U={showNats (s.mgr.runU.map (·.1))} rib={rib} b0={b 0} b1={b 1} P={showNats ports} S={showNats opens}"
 
-def lastResult (v : Rotonda.Reconf.Variant) : Live → List Ev → Live × Option Result
+def lastResult (v : Rotonda.Reconf.Variant) : LiveW → List Ev → LiveW × Option Result
   | s, [] => (s, none)
   | s, e :: es =>
-    let r := estep v s e
+    let r := westep true v s e
     let rest := lastResult v r.1 es
     (rest.1, match r.2 with | some x => some x | none => rest.2)
 
@@ -198,10 +220,10 @@ def runLive (v : Rotonda.Reconf.Variant) (line : String) : String :=
   match ((line.splitOn "|").drop 1).mapM parseEvent with
   | none => "bad-case"
   | some groups =>
-    let step := fun (acc : Live × List String) (g : List Ev) =>
+    let step := fun (acc : LiveW × List String) (g : List Ev) =>
       let r := lastResult v acc.1 g
-      (r.1, acc.2 ++ [showObs r.1 r.2])
-    " / ".intercalate (groups.foldl step (Live.init, [])).2
+      (r.1, acc.2 ++ [showObs r.1.live r.2 ++ " Q=" ++ showVirt r.1])
+    " / ".intercalate (groups.foldl step (LiveW.init, [])).2
 
 end LiveDriver
 
